@@ -50,6 +50,34 @@ def analyse(fb):
     ee = fb.find(INTERP + "eval_expression")
     ete = fb.find(INTERP + "eval_tail_expression")
     pa = Prov(asp)
+    # frame creators: new_child itself, and local helpers that return a frame whose only origin is new_child(parent) with the
+    # parent taken from exactly one parameter (e.g. a `new_call_frame(formals, closure, args)` that also binds the arguments)
+    creators = {NEW_CHILD: 1}
+    for g in fb.all("lib"):
+        if "{closure" in g.name or g.name == asp.name or "LexicalScope" not in (g.ret_ty or "") or g.name.startswith("environment::"):
+            continue
+        pg = Prov(g)
+        cr = pg.call_roots(0)
+        if {c for _, c in cr} != {NEW_CHILD} or pg.arg_roots(0) or len(cr) != 1:
+            continue
+        nb = next(iter(cr))[0]
+        nt = g.blocks[nb]["term"]
+        par_ar, par_cr = pg.arg_roots(nt["args"][0]), pg.call_roots(nt["args"][0])
+        if len(par_ar) == 1 and not par_cr and nb not in g.loop_blocks():
+            creators[g.name] = next(iter(par_ar))
+            r.makers.add(g.name)
+            r.instances.append(("frame-creator/%s" % g.name.rsplit("::", 1)[-1], {"parent_parameter": creators[g.name]}))
+            # inside the helper, bindings go to the frame it creates
+            for b, t in g.calls():
+                if (callee(t) or "").endswith("LexicalScope::define"):
+                    if {c for _, c in pg.call_roots(t["args"][0])} != {NEW_CHILD} or pg.arg_roots(t["args"][0]):
+                        r.bad("define-target", "%s binds a name outside the frame it creates" % g.name, where_of(g, t))
+            for c in fb.closures_of(g):
+                for b, t in c.calls():
+                    if callee_matches(t, "LexicalScope::define"):
+                        root, path = field_path(c, _through_deref(c, t["args"][0]))
+                        if root != 1:
+                            r.bad("closure-define-target", "formals are bound through %s in %s" % (root, c.name), where_of(c, t))
     ops = []
     for b, t in asp.calls():
         c = callee(t) or ""
@@ -74,7 +102,7 @@ def analyse(fb):
         cr = pa.call_roots(o)
         ar = pa.arg_roots(o)
         names = {c for _, c in cr}
-        if names == {NEW_CHILD} and not ar:
+        if names and names <= set(creators) and not ar:
             shapes.add("A")
             created_here |= {b for b, _ in cr}
         elif not names and len(ar) == 1:
@@ -118,7 +146,7 @@ def analyse(fb):
         for nb in sorted(created_here):
             t = asp.blocks[nb]["term"]
             r.creation.append((asp, nb, t))
-            par = t["args"][0]
+            par = t["args"][creators[callee(t)] - 1]
             ar = pa.arg_roots(par)
             cr = {c for _, c in pa.call_roots(par)}
             r.instances.append(("apply_scheme_procedure/new_child", {"parent_arg_roots": sorted(ar), "parent_call_roots": sorted(cr)}))
@@ -149,7 +177,7 @@ def analyse(fb):
             names = {c for _, c in cr}
             other = [x for x in pg.roots(mir.op_local(o)) if x[0] not in ("call", "arg")] if mir.op_local(o) is not None else []
             r.instances.append(("%s/frame-argument" % g.name.rsplit("::", 1)[-1], {"call_roots": sorted(names), "arg_roots": sorted(ar)}))
-            if names != {NEW_CHILD} or ar:
+            if not names or not names <= set(creators) or ar:
                 r.bad("new_child", "the frame handed to apply_scheme_procedure derives from %s%s, not only from a frame created "
                       "for this application (a frame from an earlier turn / another call is reused)" % (
                           sorted(names) or "no call", (" and parameters %s" % sorted(ar)) if ar else ""), where_of(g, t))
@@ -165,7 +193,7 @@ def analyse(fb):
                 elif inner is not None and mir.paths_avoiding(g, head, [b], [nb]) is not None:
                     r.bad("per-call", "a turn of the trampoline can reach the application without creating a new body frame "
                           "(the frame of an earlier turn would be reused)", where_of(g, nt))
-                closure_of_applied(g, nt["args"][0], "the parent of the body frame", where_of(g, nt))
+                closure_of_applied(g, nt["args"][creators[callee(nt)] - 1], "the parent of the body frame", where_of(g, nt))
             if len(cr) != 1:
                 r.bad("new_child", "the body frame comes from %d creation sites" % len(cr), where_of(g, t))
     elif "?" not in shapes:
